@@ -3,7 +3,8 @@
 
 Regenerates Redproxy/Gen/LockSites.lean from /repo's current source: every place where a guard of the registry
 lock (`alive` / `terminated` Mutex), of a connection's lock (`ContextRef` RwLock) or of the rule list's RwLock is
-bound and stays alive across later `.await`s, with those awaits classified:
+bound and stays alive across later `.await`s (kind `other`: a guard of any other async lock), with those awaits
+classified:
 
   lock       a Mutex / rule-list acquisition (`.lock().await`, `rules().await`)
   lockAlive / lockTerminated   acquisition of the registry's `alive` map / `terminated` history list
@@ -40,6 +41,24 @@ LOCKAWAIT = re.compile(ACQ + r"|rules\(\)\s*\.await")
 def strip_comments(s):
     s = re.sub(r"//[^\n]*", "", s)
     return re.sub(r"/\*.*?\*/", "", s, flags=re.S)
+
+
+def mask_spawn(s):
+    """blank out the argument of every `spawn( .. )`: the spawned future is another task, its awaits do not happen
+    while the spawner's guard is held (same length, so offsets stay valid)"""
+    out = s
+    for m in re.finditer(r"\bspawn\s*\(", s):
+        depth, i = 0, m.end() - 1
+        while i < len(s):
+            if s[i] == "(":
+                depth += 1
+            elif s[i] == ")":
+                depth -= 1
+                if depth == 0:
+                    break
+            i += 1
+        out = out[:m.end()] + re.sub(r"[^\n]", " ", s[m.end():i]) + out[i:]
+    return out
 
 
 def block_end(s, pos):
@@ -130,11 +149,10 @@ for path in FILES:
     if t >= 0:
         src = src[:t]
     rel = os.path.relpath(path, repo)
+    src = mask_spawn(src)
     for m in LET_GUARD.finditer(src):
         name, expr, acq = m.group(1), m.group(3), m.group(4)
         kind = lock_kind(rel, expr, acq)
-        if kind == "other":
-            continue
         end = block_end(src, m.end())
         d = re.search(r"drop\(\s*" + re.escape(name) + r"\s*\)", src[m.end():end])
         if d:
@@ -145,8 +163,6 @@ for path in FILES:
         expr, acq = m.group(1), m.group(2)
         # skip the ones that are `let` guards (already handled) — a temporary is followed by a method call
         kind = lock_kind(rel, expr[-60:], acq)
-        if kind == "other":
-            continue
         end = stmt_end(src, m.end())
         # a temporary in the scrutinee of `if let` / `while let` / `match` lives to the end of that construct's block
         st = max(src.rfind(";", 0, m.start()), src.rfind("{", 0, m.start()), src.rfind("}", 0, m.start()))
